@@ -53,12 +53,14 @@ theorem refcount_exact {n : Nat} {regs : Nat → List Nat} {s : St} (r : Reach n
     (∀ v b, s.vars v = .blk b → ∃ blk, s.heap b = some blk) :=
   ⟨(reach_good r).inv.cnt, (reach_good r).inv.live⟩
 
-/-- **Refinement** (for the calls `Spec.newVal` specifies): after any history that the specification
-    covers, every variable holds exactly the bytes the reference byte list holds.
-    `_partial`: `Spec.newVal` has no clause yet for replace(char,char), toLowerCase/toUpperCase, trim,
-    token, replace(String,String); for those calls only `independent`, `foreign_untouched`,
-    `cstr_terminated` and `refcount_exact` are proved (see OPEN below). -/
-theorem refines_partial {s s' : St} (g : Good s) : ∀ {ops : List Op} {σ' : Nat → List Byte},
+/-- **Refinement**: after any history every variable holds exactly the bytes the reference byte list
+    (`Spec.run`: one independent `List Byte` per variable) holds.  `Spec.run … = some σ'` says that the
+    history stays inside the domain of the specification: the calls that branch on chars (char maps, trim,
+    token, replace(String,String)) are applied to values whose chars are all specified, the C-string
+    based ones (token, replace) to NUL-free values, `token(const char*, start)` with `start ≤ length()`.
+    All other calls (constructors, attach, assignment, detach, resize/reserve, append/prepend in all
+    forms incl. self arguments, substr, join, printf) are specified for every state. -/
+theorem refines {s s' : St} (g : Good s) : ∀ {ops : List Op} {σ' : Nat → List Byte},
     run s ops = some s' → Spec.run s.regs (absVar s) ops = some σ' → ∀ w, absVar s' w = σ' w
   | [], σ', e, es => by
     simp only [run, Option.some.injEq] at e; subst e
@@ -77,23 +79,14 @@ theorem refines_partial {s s' : St} (g : Good s) : ∀ {ops : List Op} {σ' : Na
       by_cases c : w = op.target
       · subst c; rw [upd_same]; exact E.self
       · rw [upd_other _ _ _ _ c]; exact E.other w c
-    have := refines_partial (good_step g h1) e (σ' := σ') (by rw [E.regs, eqf]; exact es)
+    have := refines (good_step g h1) e (σ' := σ') (by rw [E.regs, eqf]; exact es)
     exact this
 
-theorem refines_from_init_partial (n : Nat) (regs : Nat → List Nat) (ops : List Op) (s : St)
+theorem refines_from_init (n : Nat) (regs : Nat → List Nat) (ops : List Op) (s : St)
     (σ : Nat → List Byte) (e : run (init n regs) ops = some s)
     (es : Spec.run regs (fun _ => []) ops = some σ) : ∀ w, absVar s w = σ w := by
   have h0 : absVar (init n regs) = fun _ => [] := by funext w; simp [absVar, init]
-  exact refines_partial (good_init n regs) e (by rw [h0]; exact es)
-
-/- OPEN: refines
-   theorem refines (n regs ops s) (e : run (init n regs) ops = some s) :
-       ∃ σ, Spec.run regs (fun _ => []) ops = some σ ∧ ∀ w, absVar s w = σ w
-   with `Spec.newVal` total.  Missing: the value clauses (and their proofs) for
-   replaceC / lower / upper (`Spec.mapCStr`), trim, tokenC / tokenS, replaceS / replaceL.
-   For these calls the effect lemmas (`eff_mapChars`, `eff_trim`, `eff_tokenC`, `eff_tokenS`,
-   `eff_replaceS`) give "some value, nothing else changes" only; the values are compared with the
-   Python `bytes` reference by the correspondence run of the check. -/
+  exact refines (good_init n regs) e (by rw [h0]; exact es)
 
 /-- **Independence**: a call changes the value of its target variable only — whatever block sharing
     (lazy copies) exists between the variables, and also when an argument is the target itself. -/
